@@ -162,9 +162,19 @@ func init() {
 			o.Check(a0 == want, "negative-formula|"+which, "a negative "+which+" must count from the month's end as daysInMonth + v + 1, the clamped value is "+a0, c)
 			o.Check(e.Arg(c, 2) == dim && (e.Arg(c, 1) == "(-1 * "+dim+")" || e.Arg(c, 1) == "-"+dim), "clamp-bounds|"+which, "the bound must be clamped to ±daysInMonth", c)
 		}
+		// the month length is that of the month the given time lies in — in the time's own location, which is the
+		// interval's (checked above): day 0 of the following month, year and month read from the time as given
 		dm := o.Fn("am/timeinterval.daysInMonth")
 		rets := (&Walk{Fn: dm}).FromEntry().Returns()
 		o.Check(len(rets) == 1, "dim", "daysInMonth must be a single expression", nil)
+		if d := o.One(e.Calls(dm, "time.Date"), "dim-date", "daysInMonth must build the last day of the month with time.Date", dm); d != nil {
+			o.Site(d, "daysInMonth: day 0 of the next month")
+			o.Check(e.Arg(d, 0) == "(time.Time).Year(p0)" && e.Arg(d, 1) == "((time.Time).Month(p0) + 1)" && e.Arg(d, 2) == "0", "dim-args",
+				"the month length must be day 0 of month+1 of the year and month the given time has in its own location, is time.Date("+e.Arg(d, 0)+", "+e.Arg(d, 1)+", "+e.Arg(d, 2)+", …)", d)
+			for _, ret := range rets {
+				o.Check(e.X(dm, ret.Results[0]) == "(time.Time).Day("+e.X(dm, d.(*ssa.Call))+")", "dim-day", "daysInMonth must return the day number of that date", ret)
+			}
+		}
 		o.MinSites(2)
 	})
 
